@@ -20,7 +20,7 @@ EXPLANATION = (
     "is sent only when the sentinel is popped; (b) queue discipline: writers append (data / sentinel, payload unchanged, writeSequence in order), the loop "
     "pops from the left; (c) the loop never dies silently: every normal path returns on not-_stillProducing, parks on a fresh _sendingDeferred or on "
     "_consumerBlocked, or re-schedules itself; _sendingDeferred is detached before it is fired and fired after every append that unblocks; a stream is "
-    "blocked in the priority tree only when its queue is empty (which is what makes _handleWindowUpdate's silent unblock sufficient); (d) back-pressure: "
+    "blocked in the priority tree only when its queue is empty and, at EVERY priority.unblock site of the class, unblocked only with a queue known non-empty (guard or preceding append) (which is what makes _handleWindowUpdate's silent unblock sufficient); (d) back-pressure: "
     "flowControlBlocked() when remainingOutboundWindow <= 0, which is window minus queued bytes; windowUpdated() reaches every affected stream and resumes a "
     "paused producer exactly when the remaining window is > 0, keeping the _producerProducing flag coupled with pause/resume. Not decided: liveness under "
     "arbitrary schedules, byte-level equality at the peer.  Known finding F29: with a NEGATIVE window (peer shrinks SETTINGS_INITIAL_WINDOW_SIZE) the clamp slices wrongly and the loop dies."
@@ -73,6 +73,8 @@ def check(ctx):
         _loop(ctx)
     with ctx.section("wakeup"):
         _wakeup(ctx)
+    with ctx.section("unblock-sites"):
+        _unblock_sites(ctx)
     with ctx.section("backpressure"):
         _backpressure(ctx)
 
@@ -329,6 +331,36 @@ def _wakeup(ctx):
         ctx.check(ok, "wakeup/unblock-needs-window", ctx.construct(q, c), "a stream with no send window is unblocked on write (the loop would spin without sending)")
 
 
+def _unblock_sites(ctx):
+    """invariant `unblocked in the priority tree => the stream's outbound queue is non-empty`: the send loop pops without a test, so EVERY unblock site must establish it"""
+    mod = ctx.mod(H2)
+    n = 0
+    for qn, fn in class_functions(mod, C):
+        g = ctx.cfg(fn)
+        for nid, c in named_calls(g, "self.priority.unblock"):
+            n += 1
+            key = src(c.args[0]) if c.args else "?"
+            nonempty = False
+            for t, lab in g.edge_guards(nid):
+                e = g.node(t).ast
+                if lab == "T" and src(e) in (f"{QUEUE}.get({key})", f"{QUEUE}[{key}]"):
+                    nonempty = True
+                if lincmp(e, negate=(lab == "F")) in (lin_expect({f"len({QUEUE}[{key}])": 1}, 1), lin_expect({f"len({QUEUE}.get({key}))": 1}, 1)):
+                    nonempty = True
+            appended = [m for m, c2 in call_sites(g, lambda c2: isinstance(c2.func, ast.Attribute) and c2.func.attr in ("append", "appendleft") and
+                                                  src(c2.func.value) == f"{QUEUE}[{key}]")]
+            if appended and g.must_precede(appended, [nid]) is None:
+                nonempty = True
+            ctx.check(nonempty, "wakeup/unblock-only-with-data", ctx.construct(Q + qn, c),
+                      f"stream {key} is unblocked in the priority tree without its outbound queue being known non-empty (neither guarded by a queue test nor preceded by an append): "
+                      "the send loop pops an empty deque (IndexError), is never re-scheduled and no stream completes")
+    ctx.floor("wakeup/unblock-only-with-data", n, 4)
+    # and the consumer side: the pop is unguarded, so the rule above is what protects it (or it has its own non-empty test)
+    f = ctx.func(H2, C + "._sendPrioritisedData")
+    pops = [c for m, c in _queue_calls(f) if m in ("popleft", "pop")]
+    ctx.check(len(pops) == 1, "wakeup/unblock-only-with-data", Q + C + "._sendPrioritisedData | pop site", f"{len(pops)} pop sites in the send loop (one expected)")
+
+
 def _backpressure(ctx):
     # flowControlBlocked() whenever the remaining window is exhausted
     for name, key in (("writeDataToStream", None), ("_sendPrioritisedData", "stream")):
@@ -390,9 +422,6 @@ def _backpressure(ctx):
             body = [d for d, l in g.succ[lid[0]] if l == "iter"]
             ok = from_here(g, body, [n], to=lid) is None
         ctx.check(ok, "backpressure/update-reaches-stream", ctx.construct(q, c), "a connection-level WINDOW_UPDATE does not reach every stream's windowUpdated()")
-    for n, c in named_calls(g, "self.priority.unblock"):
-        ok = any(isinstance(g.node(t).ast, ast.Call) and call_attr(g.node(t).ast) == "get" and src(g.node(t).ast.func.value) == QUEUE and lab == "T" for t, lab in g.edge_guards(n))
-        ctx.check(ok, "backpressure/update-reaches-stream", ctx.construct(q, c), "a stream without queued data is unblocked by WINDOW_UPDATE (the send loop pops an empty queue)")
     disp = ctx.func(H2, C + ".dataReceived")
     gd = ctx.cfg(disp)
     hw = named_calls(gd, "self._handleWindowUpdate")
@@ -444,6 +473,8 @@ MUTANTS = [
     Mutant("excess-requeued-at-back", H2, "                self._outboundStreamQueues[stream].appendleft(excessData)", "                self._outboundStreamQueues[stream].append(excessData)"),
     Mutant("excess-overlaps", H2, "                excessData = frameData[maxFrameSize:]\n", "                excessData = frameData[maxFrameSize - 1 :]\n"),
     Mutant("loop-pops-from-right", H2, "        frameData = self._outboundStreamQueues[stream].popleft()", "        frameData = self._outboundStreamQueues[stream].pop()"),
+    Mutant("connection-window-update-unblocks-idle-streams", H2, "                # If we still have data to send for this stream, unblock it.\n                if self._outboundStreamQueues.get(stream.streamID):\n                    self.priority.unblock(stream.streamID)",
+           "                # Let the stream take part in the next round.\n                self.priority.unblock(stream.streamID)"),
     Mutant("fire-without-detach", H2, "        self._outboundStreamQueues[streamID].append(_END_STREAM_SENTINEL)\n        self.priority.unblock(streamID)\n        if self._sendingDeferred is not None:\n            d = self._sendingDeferred\n            self._sendingDeferred = None\n            d.callback(streamID)",
            "        self._outboundStreamQueues[streamID].append(_END_STREAM_SENTINEL)\n        self.priority.unblock(streamID)\n        if self._sendingDeferred is not None:\n            d = self._sendingDeferred\n            d.callback(streamID)\n            self._sendingDeferred = None"),
     Mutant("write-missing-wakeup", H2, "            self.priority.unblock(streamID)\n            if self._sendingDeferred is not None:\n                d = self._sendingDeferred\n                self._sendingDeferred = None\n                d.callback(streamID)\n\n        if self.remainingOutboundWindow(streamID) <= 0:",
@@ -460,6 +491,7 @@ MUTANTS = [
     Mutant("end-stream-before-sentinel", H2, "        if frameData is _END_STREAM_SENTINEL:\n            # There's no error handling here even though", "        if frameData is _END_STREAM_SENTINEL or not frameData:\n            # There's no error handling here even though"),
 ]
 SILENT = [
+    Silent("window-update-queue-test-by-index", H2, "            if self._outboundStreamQueues.get(streamID):\n                self.priority.unblock(streamID)", "            if len(self._outboundStreamQueues[streamID]) > 0:\n                self.priority.unblock(streamID)"),
     Silent("clamp-rewritten-with-tuple-assign-and-floor", H2, "                excessData = frameData[maxFrameSize:]\n                frameData = frameData[:maxFrameSize]\n                self._outboundStreamQueues[stream].appendleft(excessData)\n",
            "                cut = max(maxFrameSize, 0)\n                frameData, excessData = frameData[:cut], frameData[cut:]\n                self._outboundStreamQueues[stream].appendleft(excessData)\n"),
     Silent("clamp-slices-swapped-order", H2, "                excessData = frameData[maxFrameSize:]\n                frameData = frameData[:maxFrameSize]\n                self._outboundStreamQueues[stream].appendleft(excessData)\n",
